@@ -47,6 +47,10 @@ def _after(call, objs):
         return None
     cls, values, inst = objs[call["obj"]]
     try:
+        if not hasattr(cls, "to_dict"):
+            # a plain protobuf class (request message of another package: no proto-plus wrapper)
+            from google.protobuf import json_format
+            return json_format.MessageToDict(inst, preserving_proto_field_name=True, use_integers_for_enums=True)
         return cls.to_dict(inst, use_integers_for_enums=True)
     except BaseException as e:  # noqa
         return {"raised": R.exc_name(e)}
